@@ -332,3 +332,168 @@ Definition call_v (_ : unit) (ls : lets) (meth recv : string) (rv : option T) (a
    end).
 
 End Value.
+
+(* ------------------------------------------------------------------------------------------- *)
+(* scalar kernels of the data layer: the function literals operators.go hands to the element-wise
+   traversals, the fold functions / identities / formulas of reducers.go *)
+Inductive sx :=
+| XV (v : string) | XZ (z : Z) | XD (m e : Z) | XNeg (a : sx)
+| XBin (op : string) (a b : sx) | XCmp (op : string) (a b : sx)
+| XCall0 (f : string) | XCall1 (f : string) (a : sx) | XCall2 (f : string) (a b : sx)
+| XFunRef (k : string) | XLet (v : string) (e body : sx) | XIf (c t e : sx)
+| XTrav (f : string) (args : list string) (k : string)
+| XOther (t : string).
+
+Record kfun := mkKfun { kf_params : list string; kf_body : sx; kf_lits : list (string * (list string * sx)) }.
+
+Fixpoint sx_eqb (a b : sx) : bool :=
+  match a, b with
+  | XV x, XV y => String.eqb x y
+  | XZ x, XZ y => (x =? y)%Z
+  | XD m e, XD m' e' => (m =? m')%Z && (e =? e')%Z
+  | XNeg x, XNeg y => sx_eqb x y
+  | XBin o x y, XBin o' x' y' => String.eqb o o' && sx_eqb x x' && sx_eqb y y'
+  | XCmp o x y, XCmp o' x' y' => String.eqb o o' && sx_eqb x x' && sx_eqb y y'
+  | XCall0 f, XCall0 g => String.eqb f g
+  | XCall1 f x, XCall1 g y => String.eqb f g && sx_eqb x y
+  | XCall2 f x y, XCall2 g x' y' => String.eqb f g && sx_eqb x x' && sx_eqb y y'
+  | XFunRef k, XFunRef k' => String.eqb k k'
+  | _, _ => false
+  end.
+
+Section Kernel.
+Context {A : Type} {SA : Scalar A}.
+Notation T := (tensor A).
+
+Definition isLit (z : Z) (e : sx) : bool :=
+  match e with XZ x => (x =? z)%Z | XD m x => (m =? z)%Z && (x =? 0)%Z | _ => false end.
+Definition litOf (m e : Z) : A :=
+  if (m =? 0)%Z then s0 else if (m =? 1)%Z && (e =? 0)%Z then s1 else sconst m e.
+
+(* a pure scalar expression over named scalars *)
+Fixpoint evx (env : list (string * A)) (e : sx) : option A :=
+  match e with
+  | XV v => lookupS env v
+  | XZ z => Some (litOf z 0)
+  | XD m x => Some (litOf m x)
+  | XBin op a b =>
+      match evx env a, evx env b with
+      | Some x, Some y =>
+          if String.eqb op "+" then Some (sadd x y) else if String.eqb op "-" then Some (ssub x y)
+          else if String.eqb op "*" then Some (smul x y) else if String.eqb op "/" then Some (sdiv x y) else None
+      | _, _ => None
+      end
+  | XCall1 f a =>
+      if String.eqb f "math.Inf" then
+        match a with
+        | XNeg z => if isLit 1 z then Some sneginf else None
+        | _ => if isLit 1 a then Some sposinf else None
+        end
+      else
+      match evx env a with
+      | Some x =>
+          if String.eqb f "math.Exp" then Some (sexp x) else if String.eqb f "math.Log" then Some (slog x)
+          else if String.eqb f "math.Sin" then Some (ssin x) else if String.eqb f "math.Cos" then Some (scos x)
+          else if String.eqb f "math.Tan" then Some (stan x) else if String.eqb f "math.Sinh" then Some (ssinh x)
+          else if String.eqb f "math.Cosh" then Some (scosh x) else if String.eqb f "math.Tanh" then Some (stanh x)
+          else if String.eqb f "math.Sqrt" then Some (ssqrt x) else None
+      | None => None
+      end
+  | XCall2 f a b =>
+      match evx env a, evx env b with
+      | Some x, Some y =>
+          if String.eqb f "math.Pow" then Some (spow x y) else if String.eqb f "math.Max" then Some (smax x y)
+          else if String.eqb f "math.Min" then Some (smin x y) else None
+      | _, _ => None
+      end
+  | XIf (XCmp op l r) t f =>
+      (* |a-b| <= threshold ? 1 : 0   and its negation *)
+      match l, r with
+      | XCall1 fa (XBin om a b), XV thr =>
+          if String.eqb fa "math.Abs" && String.eqb om "-" && String.eqb thr "float64EqualityThreshold" && String.eqb op "<=" then
+            match evx env a, evx env b with
+            | Some x, Some y =>
+                if isLit 1 t && isLit 0 f then Some (seqt x y)
+                else if isLit 0 t && isLit 1 f then Some (snet x y) else None
+            | _, _ => None
+            end
+          else None
+      | _, _ =>
+          match evx env l, evx env r with
+          | Some x, Some y =>
+              if isLit 1 t && isLit 0 f then
+                (if String.eqb op ">" then Some (sgt x y) else if String.eqb op ">=" then Some (sge x y)
+                 else if String.eqb op "<" then Some (slt x y) else if String.eqb op "<=" then Some (sle x y) else None)
+              else if sx_eqb t l && sx_eqb f r then
+                (if String.eqb op ">" then Some (sselgt x y) else if String.eqb op "<" then Some (ssellt x y) else None)
+              else None
+          | _, _ => None
+          end
+      end
+  | _ => None
+  end.
+
+(* a two-argument function literal as a total function (an uninterpretable body gives a function
+   that is not the model's, so the theorem about it cannot be proved) *)
+Definition kfn2 (k : kfun) (name : string) (env : list (string * A)) : option (A -> A -> A) :=
+  match lookupS (kf_lits k) name with
+  | Some ([p1; p2], body) =>
+      Some (fun a b => match evx ((p1, a) :: (p2, b) :: env) body with Some v => v | None => s0 end)
+  | _ => None
+  end.
+Definition kfn2_total (k : kfun) (name : string) (env : list (string * A)) : Prop :=
+  match lookupS (kf_lits k) name with
+  | Some ([p1; p2], body) => forall a b, evx ((p1, a) :: (p2, b) :: env) body <> None
+  | _ => False
+  end.
+
+(* the reducer methods: expressions over the receiver tensor t *)
+Definition isNumElems (e : sx) : bool :=
+  match e with XCall1 f (XCall0 g) => String.eqb f "float64" && String.eqb g "t.numElems" | _ => false end.
+
+Fixpoint evr (fuel : nat) (k : kfun) (t : T) (env : list (string * A)) (senv : list (string * sx)) (e : sx) : option A :=
+  match fuel with
+  | O => None
+  | S fuel' =>
+  match e with
+  | XLet v d body =>
+      match evr fuel' k t env senv d with
+      | Some x => evr fuel' k t ((v, x) :: env) ((v, d) :: senv) body
+      | None => None
+      end
+  | XCall0 f =>
+      if String.eqb f "t.sum" then r_sum t else if String.eqb f "t.avg" then r_avg t
+      else if String.eqb f "t.mean" then r_mean t else if String.eqb f "t._var" then r_var t else None
+  | XCall1 f a =>
+      if isNumElems e then Some (sofnat (numElems t))
+      else if String.eqb f "math.Sqrt" then match evr fuel' k t env senv a with Some x => Some (ssqrt x) | None => None end
+      else None
+  | XCall2 f (XFunRef name) ident =>
+      if String.eqb f "t.reduceByAssociativeFunc" then
+        match kfn2 k name env, evx env ident with
+        | Some af, Some i => reduceBy af i t
+        | _, _ => None
+        end
+      else None
+  | XBin op a b =>
+      match evr fuel' k t env senv a, evr fuel' k t env senv b with
+      | Some x, Some y =>
+          if String.eqb op "/" then Some (sdiv x y) else if String.eqb op "-" then Some (ssub x y)
+          else if String.eqb op "+" then Some (sadd x y) else if String.eqb op "*" then Some (smul x y) else None
+      | _, _ => None
+      end
+  | XIf (XCmp op (XV n) one) th el =>
+      (* if n > 1 {...} else {...}  with  n := float64(t.numElems()) *)
+      match lookupS senv n with
+      | Some d =>
+          if isNumElems d && String.eqb op ">" && isLit 1 one
+          then if (1 <? numElems t)%nat then evr fuel' k t env senv th else evr fuel' k t env senv el
+          else None
+      | None => None
+      end
+  | XV _ | XZ _ | XD _ _ => evx env e
+  | _ => None
+  end
+  end.
+
+End Kernel.
